@@ -112,6 +112,20 @@ static void read_section(int me)
 	F->read_unlock();
 }
 
+/*
+ * bp: a signal handler that uses the read side may interrupt the forking thread anywhere, also
+ * while it has not used the read side yet (the handler then performs the automatic registration)
+ * and while the signal was held pending by the fork handlers' mask: in the parent and in the child.
+ */
+static int sig_after[2], fork_handler_runs;
+
+static void fork_sig_handler(int signo)
+{
+	(void) signo;
+	read_section(in_child ? 61 : 60);
+	fork_handler_runs++;
+}
+
 static void sync_checked(int me, const char *what)
 {
 	int g;
@@ -199,12 +213,38 @@ static void *bp_reader(void *arg)
 	return NULL;
 }
 
+/*
+ * Another application thread (not a reader, no defer user) that owns a call_rcu helper of its
+ * own and destroys it at some point: "several helpers", one of them stopping, at fork time.
+ */
+static int owner_pauses;
+
+static void *helper_owner(void *arg)
+{
+	struct call_rcu_data *c;
+	int i;
+	(void) arg;
+	usim_thread_name("helper-owner");
+	usim_set_op("owner: create_call_rcu_data");
+	c = F->create_call_rcu_data(0, -1);
+	for (i = 0; i < owner_pauses; i++)
+		usleep(1000);
+	usim_set_op("owner: call_rcu_data_free");
+	F->call_rcu_data_free(c);
+	usim_probe("fork.other_thread_destroyed_its_helper");
+	return NULL;
+}
+
 static void *forker(void *arg)
 {
 	struct script *s = arg;
 	int i;
 
 	usim_thread_name("forker");
+	if (sig_after[0])
+		usim_signal_plan(usim_tid(), 10, (uint64_t) sig_after[0]);
+	if (sig_after[1])
+		usim_signal_plan(usim_tid(), 10, (uint64_t) sig_after[1]);
 	if (!F->is_bp)
 		F->register_thread();
 	for (i = 0; i < s->nops; i++) {
@@ -274,16 +314,16 @@ static void *forker(void *arg)
 void scen_fork(void)
 {
 	struct script *s = &scripts[0];
-	pthread_t th, rd[3];
-	int i, nreaders = 0, forkpos;
-	static const int cpus[] = { 1, 2, 4 };
+	pthread_t th, rd[3], owner;
+	int i, nreaders = 0, forkpos, with_owner;
+	static const int cpus[] = { 1, 2, 3, 4 };
 
 	orc_reset();
 	F = choose_flavor(0xf);
 	choose_futex_faults(1);
 	choose_rcu_knobs(1);
 	usim_fault_enable("getcpu_migrate", rnd(2));
-	usim_set_ncpus((int) usim_param("ncpus", cpus[rnd(3)]));
+	usim_set_ncpus((int) usim_param("ncpus", cpus[rnd(4)]));
 	usim_set_knob(URCU_VERIF_KNOB_COUNT_COMMIT_ORDER, 1);
 	s->nops = 3 + rnd(usim_tier() ? 10 : 7);
 	forkpos = rnd(s->nops);
@@ -306,7 +346,14 @@ void scen_fork(void)
 	nthreads = 1;
 	if (F->is_bp)
 		nreaders = (int) usim_param("bp_readers", rnd(4));
-	usim_describe("],\"bp_readers\":%d}", nreaders);
+	if (F->is_bp && (int) usim_param("signals", rnd(2))) {
+		sig_after[0] = 1 + (int) rnd(400);
+		sig_after[1] = 1 + (int) rnd(4000);
+		usim_signal_handler(10, fork_sig_handler);
+	}
+	with_owner = (int) usim_param("helper_owner", rnd(3) == 0);
+	owner_pauses = (int) rnd(12);
+	usim_describe("],\"bp_readers\":%d,\"helper_owner\":%d}", nreaders, with_owner);
 	script_apply_skips(scripts, 1);
 	gptr = malloc(sizeof(*gptr));
 	gptr->version = 0;
@@ -315,10 +362,15 @@ void scen_fork(void)
 	usim_quiet_expect(1);
 	for (i = 0; i < nreaders; i++)
 		pthread_create(&rd[i], NULL, bp_reader, (void *) (long) (i + 1));
+	if (with_owner)
+		pthread_create(&owner, NULL, helper_owner, NULL);
 	pthread_create(&th, NULL, forker, s);
 	pthread_join(th, NULL);
+	if (with_owner)
+		pthread_join(owner, NULL);
 	for (i = 0; i < nreaders; i++)
 		pthread_join(rd[i], NULL);
 	if (forked)
 		usim_mark_nontrivial();
+	usim_probe_n("fork.read_side_signal_handler_runs", fork_handler_runs);
 }
